@@ -167,9 +167,10 @@ L_ModuleEmpty(c, p, q, a, g, ok) == \A as \in Assets : q.bal[TM][as] = p.bal[TM]
 L_ModuleEmptyRoot(c, q) == \A as \in Assets : q.bal[TM][as] = 0
 (* L6 burns never exceed the holder's balance nor the book; the book never becomes negative, and BurnTokensForApp never   *)
 (*    burns an app's token down to zero (ErrorBurningMakesSupplyLessThanZero: "reduces the supply to 0 or less").          *)
-(*    The bounds by the book are demanded of steps that start from an intact book (book = supply of that asset): after an  *)
-(*    earlier, separately reported deviation has torn book and supply apart they cannot be expected.                        *)
-Intact(c, s, as) == s.sup[as] - c.ext[as] = BookSum(s, as)
+(*    The bounds by the book are demanded where the book is the whole supply: nobody else has minted the denomination      *)
+(*    (c.ext = 0) and the step starts from an intact book (book = supply) - after an earlier, separately reported          *)
+(*    deviation has torn book and supply apart they cannot be expected.                                                     *)
+Intact(c, s, as) == c.ext[as] = 0 /\ s.sup[as] = BookSum(s, as)
 L_BurnBounded(c, p, q, a, g, ok) ==
   /\ a = "BurnForApp" /\ ok => q.book[g.app][g.asset].cur > 0
   /\ a \in {"BurnForApp", "BurnGov"} /\ ok =>
